@@ -225,7 +225,7 @@ func runCheck(spec *PropSpec, tier string, seed int, accept, verbose bool, overl
 	// functions serving this property
 	var keys []string
 	for k, fc := range w.contracts {
-		if fc.Extern || (fc.AssumeOnly && !fc.SingleTx) || fc.Inline {
+		if fc.Extern || (fc.AssumeOnly && !fc.SingleTx && !(fc.CallsArg > 0 && len(fc.Props) > 0)) || fc.Inline {
 			continue
 		}
 		for _, p := range fc.Props {
